@@ -950,6 +950,8 @@ def tie_C13(ctx):
         res = o[2]
         conds, mean = timer_oracle(rs)
         ctx.dist["result:" + res.split()[0] + (":" + res.split()[1] if res.startswith("err") else "")] += 1
+        if res == "panic":
+            ctx.fail("test_timer", "test_timer panicked instead of returning Ok or Err", c, expected="Ok(r) or Err(e)", actual="panic")
         if res.startswith("ok "):
             r = int(res.split()[1])
             bl = mean.bit_length()
@@ -1022,6 +1024,16 @@ def tie_C14(ctx):
         cases.append([f"timer 0 {rd_hex(rs)}", "jit 1 0", "testtimer 1", "u32 1"])
         ctx.dist["jitter-hostile-test_timer"] += 1
     cases.append(["timer 0 1,2,3", "jit 1 0", "rounds 1 0"])
+    # test_timer at every row of the rounds table and around every log2 boundary (indexing, division)
+    for m in list(range(0, 41)) + [v for k in range(5, 34) for v in ((1 << k) - 1, 1 << k, (1 << k) + 1)]:
+        a = rng.randrange(1, 90)
+        ds = [(a if i % 2 == 0 else a + m) + (1 if i % 7 == 3 else 0) for i in range(400)]
+        if ctx.thorough or m % 5 == 0:
+            cases.append([f"timer 0 {rd_hex(probe_script(rng, ds))}", "jit 1 0", "testtimer 1", "u32 1"])
+        # exact means: no perturbation
+        ds = [(a if i % 2 == 0 else a + m) for i in range(400)]
+        cases.append([f"timer 0 {rd_hex(probe_script(rng, ds))}", "jit 1 0", "testtimer 1"])
+        ctx.dist["jitter-test_timer-mean-sweep"] += 2
     # every deterministic generator: extreme seeds, zero / odd / large fills at every buffer index
     for g in GENS:
         info = GENS[g]
@@ -1253,18 +1265,32 @@ def tie_C17(ctx):
             c += ["ser 3"] if info["ser"] else ["fill 3 0"]
             cases.append(c); meta.append((g, len(c) - 8))
             ctx.dist[f"{g}:two-seeds-same-history"] += 1
-    # JitterRng
+    # JitterRng: two instances on different timers, same history
     for i in range(ctx.scale(20, 200)):
-        rs = good_readings(rng, 200)
-        c = [f"timer 0 {rd_hex(rs)}", "jit 1 0", "rounds 1 2"] + rng.choice([[], ["u32 1"], ["u64 1"], ["u32 1", "u32 1"]]) + \
-            ["dbg 1", "dbgp 1", "pool 1"]
-        cases.append(c); meta.append(("JitterRng", len(c) - 3))
+        rs, rs2 = good_readings(rng, 200), good_readings(rng, 200)
+        ops = rng.choice([[], ["u32"], ["u64"], ["u32", "u32"], ["u64", "u32"], ["fill 9"]])
+        c = [f"timer 0 {rd_hex(rs)}", "jit 1 0", "rounds 1 2", f"timer 2 {rd_hex(rs2)}", "jit 3 2", "rounds 3 2"] + \
+            op_lines(1, ops) + op_lines(3, ops) + ["dbg 3", "dbgp 3", "dbg 1", "dbgp 1", "pool 1"]
+        cases.append(c); meta.append(("JitterRng", len(c) - 5))
+    # states that only deserialisation can produce (all-zero XorShift state, arbitrary words)
+    for img in [bytes(16), b"\xff" * 16] + [rand_bytes(rng, 16) for _ in range(ctx.scale(6, 60))] + \
+               [bytes(12) + rand_bytes(rng, 4), rand_bytes(rng, 4) + bytes(12)]:
+        c = [f"de 0 XorShiftRng {img.hex()}", "dbg 0", "dbgp 0"]
+        cases.append(c); meta.append(("XorShiftRng-de", 1))
     h, _ = ctx.absolute("{:?} and {:#?} of the state-hiding generators vs the model's template (function of read position only)", cases)
     import re
     for (g, at), c, o in zip(meta, cases, h):
+        if g == "XorShiftRng-de":
+            if o[1] != "XorShiftRng {}" or o[2] != "XorShiftRng {}":
+                ctx.fail("debug", "XorShiftRng: Debug output of a deserialised state is not the constant text (it depends on the state)",
+                         c, expected="XorShiftRng {}", actual=o[1])
+            continue
         if g == "JitterRng":
-            texts = [o[at], o[at + 1]]
-            words = {int(o[at + 2], 16)} if o[at + 2] != "unsupported" else set()
+            texts = [o[at + 2], o[at + 3]]
+            if o[at] != o[at + 2] or o[at + 1] != o[at + 3]:
+                ctx.fail("debug", "JitterRng: Debug output differs between two generators with different timers and the same history",
+                         c, expected=o[at + 2], actual=o[at])
+            words = {int(o[at + 4], 16)} if o[at + 4] != "unsupported" else set()
         else:
             texts = o[at:at + 4]
             if o[at] != o[at + 2] or o[at + 1] != o[at + 3]:
@@ -1311,6 +1337,16 @@ def corpus_C18(ctx, serde_free=True):
     for i in range(ctx.scale(6, 40)):
         rs = probe_script(rng, [rng.randrange(1, rng.choice([5, 50, 1 << 20])) for _ in range(400)])
         cases.append([f"timer 0 {rd_hex(rs)}", "jit 1 0", "testtimer 1"])
+    # arithmetic that would wrap in one profile and trap in another: deltas near +-2^31, 2^32, 2^63
+    for i in range(ctx.scale(10, 80)):
+        ds = [rng.choice([0x7fffffff, 0x7ffffffe, 0x80000000 - 3, 0x7fffff00]) if k % 2 == 0 else
+              rng.choice([0x80000001, 0x80000002, 0x80000100, 0xffffff00]) for k in range(400)]
+        cases.append([f"timer 0 {rd_hex(probe_script(rng, ds))}", "jit 1 0", "testtimer 1", "calls 0"])
+        rs = hostile_readings(rng, 400)
+        cases.append([f"timer 0 {rd_hex(rs)}", "jit 1 0", f"rounds 1 {rng.choice([1, 2])}", "u64 1", "stats 1 1", "stats 1 0", "u32 1", "calls 0"])
+        t0 = rng.choice([(1 << 63) - 5, (1 << 63) - 1, MASK64 - 3])
+        cases.append([f"timer 0 {rd_hex([t0, (t0 + 9) & MASK64, 5, 7, (t0 + 50) & MASK64, (t0 + 70) & MASK64])}", "jit 1 0",
+                      "stats 1 0", "stats 1 1"])
     return cases
 
 def tie_C18(ctx):
@@ -1373,16 +1409,26 @@ def tie_C19(ctx):
             rs = good_readings(rng, 300)
             gens.append([f"timer {k + 10} {rd_hex(rs)}", f"jit {k} {k + 10}", f"rounds {k} 2", f"u32 {k}", f"u64 {k}", f"fill {k} 9"])
         worlds.append(gens)
+    # JitterRng worlds aimed at process-wide state: one instance passes test_timer (its result is not 64), then a
+    # second instance is created with new_with_timer and used WITHOUT set_rounds (default 64 rounds)
+    for w in range(ctx.scale(6, 60)):
+        ds = [rng.randrange(1, rng.choice([40, 400, 5000])) for _ in range(400)]
+        probe = probe_script(rng, ds)
+        rs = good_readings(rng, 700)
+        worlds.append([[f"timer 10 {rd_hex(probe)}", "jit 0 10", "testtimer 0"],
+                       [f"timer 11 {rd_hex(rs)}", "jit 1 11", "u64 1", "calls 11", "u32 1", "calls 11"]])
+        ctx.dist["world:test_timer-then-fresh-jitter"] += 1
     solo_cases, inter_cases, maps = [], [], []
     for gens in worlds:
         for seq in gens:
             solo_cases.append(seq)
-        # scripted interleaving over worker threads
         idx = [0] * len(gens)
         order = []
         nthreads = rng.randrange(2, 9)
+        sequential = gens and gens[0] and gens[0][-1] == "testtimer 0"
         while any(i < len(s) for i, s in zip(idx, gens)):
-            k = rng.choice([j for j in range(len(gens)) if idx[j] < len(gens[j])])
+            live = [j for j in range(len(gens)) if idx[j] < len(gens[j])]
+            k = live[0] if sequential else rng.choice(live)
             t = rng.randrange(nthreads)
             order.append((k, idx[k], f"@{t} {gens[k][idx[k]]}"))
             idx[k] += 1
@@ -1390,16 +1436,28 @@ def tie_C19(ctx):
         maps.append(order)
         ctx.dist[f"threads={nthreads}"] += 1
         ctx.dist[f"instances={len(gens)}"] += 1
-    solo, _ = ctx.absolute("each generator alone vs model", solo_cases)
-    inter = ctx.real("the same histories interleaved on 2-8 OS threads (generators move between threads)", inter_cases)
+    # every solo history in its OWN fresh process (nothing can leak into it), compared with the model
+    solo = run_isolated(ctx.hexe, solo_cases)
+    msolo = run_chunks(DRIVER, solo_cases)
+    for c, ho, mo in zip(solo_cases, solo, msolo):
+        ctx.count_case("each generator alone in a fresh process vs model", c)
+        ctx.traces_validated += 1
+        k = first_diff(ho, mo)
+        if k is not None and "blocked" not in ho[:k + 1]:
+            ctx.disagreements.append(dict(family="solo vs model", case=c, line=k, cmd=c[k], impl=ho[k], model=mo[k]))
+    # every world in its own process too, so that a failing world is a self-contained replay
+    inter = run_isolated(ctx.hexe, inter_cases)
+    for c in inter_cases:
+        ctx.count_case("the same histories interleaved on 2-8 OS threads in one process (generators move between threads)", c)
     si = 0
     for gens, order, c, o in zip(worlds, maps, inter_cases, inter):
         solos = solo[si:si + len(gens)]
         si += len(gens)
         for (k, i, line), v in zip(order, o):
             if solos[k][i] != v:
-                ctx.fail("isolation", f"instance {k}: `{gens[k][i][:60]}` returned a different value when interleaved with other instances "
-                         f"on other threads than when run alone", c, expected=solos[k][i][:80], actual=v[:80])
+                ctx.fail("isolation", f"instance {k}: `{gens[k][i][:60]}` returned a different value when other instances were used in the "
+                         f"same process (interleaved, on other threads) than when run alone in a fresh process", c,
+                         expected=solos[k][i][:80], actual=v[:80])
                 break
 
 PROPS.update({
